@@ -392,9 +392,14 @@ def grid(maxlen):
     alpha = _grid_alphabet()
     tail = _grid_tail()
     tail[-2]["snap"] = True       # the copy is a non-read: snapshot both objects after it
+    kinds = ["CkCopyCopy", "CkCopy", "CkDeepCopy", "CkPickle"]
+    idx = 0
     for ln in range(1, maxlen + 1):
         for combo in itertools.product(range(len(alpha)), repeat=ln):
-            yield {"cls": "OMD", "grid": list(combo), "ops": copy.deepcopy([alpha[i] for i in combo] + tail)}
+            c = {"cls": "OMD", "grid": list(combo), "ops": copy.deepcopy([alpha[i] for i in combo] + tail)}
+            c["ops"][-2].update(c=kinds[idx % 4], proto=idx % 6)      # rotate the way the copy is made
+            idx += 1
+            yield c
 
 
 def drain_grid():
@@ -421,8 +426,11 @@ def drain_grid():
         for j, r in enumerate(removals):
             for k, q in enumerate(probes):
                 for k2, q2 in enumerate(probes[:3]):
-                    yield {"cls": "OMD", "grid": ["drain", i, j, k, k2],
-                           "ops": copy.deepcopy(p + [r, q, q2] + tail)}
+                    c = {"cls": "OMD", "grid": ["drain", i, j, k, k2],
+                         "ops": copy.deepcopy(p + [r, q, q2] + tail)}
+                    c["ops"][-2].update(c=["CkCopyCopy", "CkCopy", "CkDeepCopy", "CkPickle"][(j + k + k2) % 4],
+                                        proto=(i + j + k) % 6)
+                    yield c
 
 
 GRID_LEN = {"quick": 2, "thorough": 3}
